@@ -188,13 +188,19 @@ def extract():
 
     # ---- display_ident_part (expression identifiers)
     body = fn_text(IDENT, r"pub\s+fn\s+display_ident_part\s*\(")
-    want = ("fn forbidden_start(c: char) -> bool { !(c.is_ascii_alphabetic() || matches!(c, '_' | '$')) } "
-            "fn forbidden_subsequent(c: char) -> bool { !(c.is_ascii_alphabetic() || c.is_ascii_digit() || c == '_') } "
-            "let needs_escape = s.is_empty() || s.starts_with(forbidden_start) || (s.len() > 1 && s.chars().skip(1).any(forbidden_subsequent)); "
-            "if needs_escape { write!(f, \"`{s}`\") } else { write!(f, \"{s}\") }")
-    if body != want:
+    mshape = re.match(
+        r'^const RESERVED: &\[&str\] = &\[(.*?)\]; '
+        r"fn forbidden_start\(c: char\) -> bool \{ !\(c\.is_ascii_alphabetic\(\) \|\| c == '_'\) \} "
+        r"fn forbidden_subsequent\(c: char\) -> bool \{ !\(c\.is_ascii_alphabetic\(\) \|\| c\.is_ascii_digit\(\) \|\| c == '_'\) \} "
+        r"let needs_escape = s\.is_empty\(\) \|\| s\.starts_with\(forbidden_start\) \|\| \(s\.len\(\) > 1 && s\.chars\(\)\.skip\(1\)\.any\(forbidden_subsequent\)\) \|\| RESERVED\.contains\(&s\); "
+        r'if needs_escape \{ write!\(f, "`\{s\}`"\) \} else \{ write!\(f, "\{s\}"\) \}$', body)
+    if not mshape:
         raise ExtractError("display_ident_part no longer has the modelled shape")
-    info["disp_ident_start"] = char_class("a-zA-Z_$")
+    res = re.findall(r'"([^"]*)"', mshape.group(1))
+    if not res or re.sub(r'"[^"]*"|[\s,]', "", mshape.group(1)):
+        raise ExtractError("display_ident_part: RESERVED list not understood")
+    info["disp_reserved"] = res
+    info["disp_ident_start"] = char_class("a-zA-Z_")
     info["disp_ident_rest"] = char_class("a-zA-Z0-9_")
 
     # ---- lexer: keyword list, multi-char operator spellings
@@ -328,13 +334,13 @@ PINNED = {
     "needs_parenthesis": "7130b65cce8b7964",
     "write_within": "dd3053dbcfdc95d3",
     "Expr::write": "4a44b4110c37b8fe",
-    "ExprKind::write": "b3857f64e25a8daf",
+    "ExprKind::write": "b2c9bd55f9ad4e95",
     "Ident::write": "9d211b4636ec4db3",
-    "display_interpolation": "5d61c90c158831f1",
+    "display_interpolation": "f82062f0c0a1b341",
     "SwitchCase::write": "1301b5472c314484",
     "write_between": "c2faf8837235e62c",
     "Literal::fmt": "aa530c512dd8194a",
-    "quote_string": "9dc27863cb9734d9",
+    "quote_string": "aa20f7be2c157083",
     "escape_all_except_quotes": "b87b30d4c5ea8949",
     "display_ident": "7bbcb13d95579ab6",
     "lexer::multi_quoted_string": "57038ddfe998cf6f",
@@ -383,7 +389,8 @@ def generate():
     v += "(* write_ident_part: keywords() and valid_prql_ident = star or [start][rest]...; display_ident_part classes *)\n"
     v += "Definition fmt_keywords : list (list N) :=\n  %s.\n" % lst("%s (* %s *)" % (codes(k), k) for k in info["fmt_keywords"])
     v += "Definition fmt_ident_start : list (N * N) := %s.\nDefinition fmt_ident_rest : list (N * N) := %s.\n" % (ranges(info["fmt_ident_start"]), ranges(info["fmt_ident_rest"]))
-    v += "Definition disp_ident_start : list (N * N) := %s.\nDefinition disp_ident_rest : list (N * N) := %s.\n\n" % (ranges(info["disp_ident_start"]), ranges(info["disp_ident_rest"]))
+    v += "Definition disp_ident_start : list (N * N) := %s.\nDefinition disp_ident_rest : list (N * N) := %s.\n" % (ranges(info["disp_ident_start"]), ranges(info["disp_ident_rest"]))
+    v += "Definition disp_reserved : list (list N) :=\n  %s.\n\n" % lst("%s (* %s *)" % (codes(k), k) for k in info["disp_reserved"])
     v += "(* lexer/mod.rs keyword() *)\n"
     v += "Definition lex_keywords : list (list N) :=\n  %s.\n\n" % lst("%s (* %s *)" % (codes(k), k) for k in info["lex_keywords"])
     v += "(* parser/expr.rs: pratt level and associativity per BinOp; token spelling -> operator *)\n"
